@@ -5,6 +5,7 @@ package main
 // decides which sides are feasible and the alternative is queued.
 
 import (
+	"os"
 	"encoding/binary"
 	"fmt"
 	"go/token"
@@ -155,6 +156,7 @@ type Engine struct {
 	qhits       int
 	mergeFail   map[*ssa.Function]int
 	ufCalls     []ufCall
+	crcMemo     map[string]*Term
 	ghost       map[string]value
 	pipes       map[*value]*pipeState
 	timers      []*timerRec
@@ -216,6 +218,12 @@ func (e *Engine) noteIntrinsic(fn *ssa.Function) {
 // ---------- nondeterministic inputs ----------
 
 func (e *Engine) nondet(w uint8, kind string) *Term {
+	if e.mergeDepth > 0 {
+		// a merged region must not draw from the replay vector (its local
+		// paths would number the draws differently): abandon the attempt now
+		// rather than after exploring the whole region
+		panic(mergeAbort{"nondet inside merged region"})
+	}
 	k := len(e.nd)
 	name := fmt.Sprintf("nd%d_%d", k, w)
 	e.nd = append(e.nd, ndInfo{Name: name, W: w, Kind: kind})
@@ -291,6 +299,20 @@ func (e *Engine) check(extra *Term, wantModel bool) (SatResult, Model) {
 		return r.res, r.model
 	}
 	res, m := e.solver.Check(lits, true)
+	if res == Sat && m != nil {
+		// self-check: the model must satisfy the query under the engine's own
+		// term semantics (guards against encoder/evaluator mismatches)
+		ev := newEvaluator(m)
+		for _, l := range lits {
+			if ev.eval(l) == 0 {
+				if debugStack {
+					fmt.Fprintf(os.Stderr, "MODEL MISMATCH on literal %s\nlast script:\n%s\n", trunc(l.String(), 400), trunc(e.solver.buf.String(), 6000))
+				}
+				e.inconclusive("solver model does not satisfy the query under the engine's evaluator")
+				break
+			}
+		}
+	}
 	if len(e.qcache) > 2_000_000 {
 		e.qcache = map[string]qres{}
 	}
@@ -435,10 +457,19 @@ func (e *Engine) concretize(t *Term, why string) uint64 {
 		}
 		tries++
 		if tries > e.cfg.MaxConcretize {
+			if debugStack {
+				fmt.Fprintf(os.Stderr, "concretize overflow: term=%s cursor=%d prefixlen=%d mergeDepth=%d local=%v model[t]=%v inmodel=%v nd=%d\n", t.String(), p.cursor, len(p.prefix), e.mergeDepth, p.local != nil, p.model[t.name], p.ev.defined(t), len(e.nd))
+				for i, d := range p.prefix {
+					fmt.Fprintf(os.Stderr, "  [%d] taken=%v val=%d conc=%v\n", i, d.Taken, d.Val, d.Conc)
+				}
+			}
 			panic(engineError{fmt.Sprintf("more than %d feasible values when concretising %s", e.cfg.MaxConcretize, why)})
 		}
 		v := p.ev.eval(t)
 		cond := c.Eq(t, c.Const(t.w, v))
+		if debugStack {
+			fmt.Fprintf(os.Stderr, "concretize %s tries=%d value=%d term=%s\n", why, tries, v, trunc(t.String(), 300))
+		}
 		res, m := e.check(c.Not(cond), true)
 		switch res {
 		case Sat:
@@ -694,6 +725,7 @@ func (e *Engine) runPath(it workItem) {
 	e.symbolic = false
 	e.mergeDepth = 0
 	e.ufCalls = nil
+	e.crcMemo = nil
 	e.pipes = nil
 	e.timers = nil
 	e.locks = nil
